@@ -34,6 +34,12 @@ regenerated lock table; the lines handled here connect the harness to that table
   state-synced from the segments `Chain::segmenter()` serves; the expected answer is `ok` (every
   segment validated against the current archive header, the assembled state has its roots); the
   tree and the deliveries of that run also go through the `chain` domain;
+* `conc pibd round=… episode=… archive_height=… top=… fork_headers=… heights=b/o/r/k => ok`: run `pibd` —
+  a node received its state through `Chain::desegmenter()` from a sync thread and two peer threads
+  (genuine, duplicate and malformed segments) while a header-gossip thread and readers used the same
+  Chain; expected `ok`; the `conc sim` line of the episode replays the `Desegmenter::…` entries of
+  the regenerated table (each under the caller's `pibd_desegmenter.write()`) together with the
+  chain ops of the other threads; the final state goes through the `chain` domain;
 * the final (head, unspent set) of a concurrent run is compared by the `chain` domain
   (`chain obs <twin> => …`), not here. -/
 namespace GV.Drv.ConcD
@@ -64,7 +70,9 @@ function in the check's report when such a theorem stops checking) -/
 def tableViolations : String :=
   let bad (f : List LockEv → Bool) := (GV.Gen.lockTable.filter (fun e => !f e.2)).map (·.1)
   let o := bad respectsOrder
-  let c := bad commitsUnderWriteLock
+  -- the one named exception (Props/C17 `desegmenter_check_progress_commits_unlocked`): a batch
+  -- holding `pibd_head` only, committed under the caller's pibd_desegmenter guard
+  let c := (bad commitsUnderWriteLock).filter (fun n => n != "Desegmenter::check_progress")
   let k := bad callbacksUnlocked
   if o.isEmpty && c.isEmpty && k.isEmpty then "ok"
   else s!"violations:order{o};commit-outside-write-lock{c};callback-under-lock{k}"
@@ -104,6 +112,19 @@ def handle (st : St) (args : List String) (impl : String) : St × Verdict :=
     | none => (st, .unknown)
   | "segcache" :: rest =>
     match kvArg rest "archive_height", kvArg rest "fork_from" with
+    | some _, some _ => (st, cmpModel "ok" impl)
+    | _, _ => (st, .unknown)
+  | "zipwin" :: rest =>
+    -- install of a zipped state (`Chain::txhashset_write`) while readers hold one-view reads: the
+    -- answer demanded by the property is `ok` (install replaced the state, every view consistent)
+    match kvArg rest "archive_height", kvArg rest "top" with
+    | some _, some _ => (st, cmpModel "ok" impl)
+    | _, _ => (st, .unknown)
+  | "pibd" :: rest =>
+    -- the expected answer is `ok` (the sync completed, the received state validated, and after the
+    -- body sync the node is where the source node is); the state itself is compared by the `chain`
+    -- domain (`chain obs pb<round> => <state of the state-synced node>`)
+    match kvArg rest "archive_height", kvArg rest "heights" with
     | some _, some _ => (st, cmpModel "ok" impl)
     | _, _ => (st, .unknown)
   | "txcount" :: rest =>
